@@ -50,11 +50,11 @@ type DataChannel struct {
 	// binaryType                 string
 
 	onMessageHandler    func(DataChannelMessage)
-	openHandlerOnce     sync.Once
+	openHandlerOnce     *sync.Once // one per OnOpen registration
 	onOpenHandler       func()
-	dialHandlerOnce     sync.Once
+	dialHandlerOnce     *sync.Once
 	onDialHandler       func()
-	closeHandlerOnce    sync.Once
+	closeHandlerOnce    *sync.Once
 	onCloseHandler      func()
 	onBufferedAmountLow func()
 	onErrorHandler      func(error)
@@ -217,14 +217,15 @@ func (d *DataChannel) checkDetachAfterOpen() {
 // OnOpen sets an event handler which is invoked when
 // the underlying data transport has been established (or re-established).
 func (d *DataChannel) OnOpen(f func()) {
+	once := &sync.Once{}
 	d.mu.Lock()
-	d.openHandlerOnce = sync.Once{}
+	d.openHandlerOnce = once
 	d.onOpenHandler = f
 	d.mu.Unlock()
 
 	if d.ReadyState() == DataChannelStateOpen {
 		// If the data channel is already open, call the handler immediately.
-		go d.openHandlerOnce.Do(func() {
+		go once.Do(func() {
 			f()
 			d.checkDetachAfterOpen()
 		})
@@ -233,7 +234,7 @@ func (d *DataChannel) OnOpen(f func()) {
 
 func (d *DataChannel) onOpen() {
 	d.mu.RLock()
-	handler := d.onOpenHandler
+	handler, once := d.onOpenHandler, d.openHandlerOnce
 	if d.isGracefulClosed {
 		d.mu.RUnlock()
 
@@ -242,7 +243,7 @@ func (d *DataChannel) onOpen() {
 	d.mu.RUnlock()
 
 	if handler != nil {
-		go d.openHandlerOnce.Do(func() {
+		go once.Do(func() {
 			handler()
 			d.checkDetachAfterOpen()
 		})
@@ -252,20 +253,21 @@ func (d *DataChannel) onOpen() {
 // OnDial sets an event handler which is invoked when the
 // peer has been dialed, but before said peer has responded.
 func (d *DataChannel) OnDial(f func()) {
+	once := &sync.Once{}
 	d.mu.Lock()
-	d.dialHandlerOnce = sync.Once{}
+	d.dialHandlerOnce = once
 	d.onDialHandler = f
 	d.mu.Unlock()
 
 	if d.ReadyState() == DataChannelStateOpen {
 		// If the data channel is already open, call the handler immediately.
-		go d.dialHandlerOnce.Do(f)
+		go once.Do(f)
 	}
 }
 
 func (d *DataChannel) onDial() {
 	d.mu.RLock()
-	handler := d.onDialHandler
+	handler, once := d.onDialHandler, d.dialHandlerOnce
 	if d.isGracefulClosed {
 		d.mu.RUnlock()
 
@@ -274,7 +276,7 @@ func (d *DataChannel) onDial() {
 	d.mu.RUnlock()
 
 	if handler != nil {
-		go d.dialHandlerOnce.Do(handler)
+		go once.Do(handler)
 	}
 }
 
@@ -285,24 +287,25 @@ func (d *DataChannel) onDial() {
 // If this is the case for you, you can deregister OnClose
 // prior to GracefulClose.
 func (d *DataChannel) OnClose(f func()) {
+	once := &sync.Once{}
 	d.mu.Lock()
-	d.closeHandlerOnce = sync.Once{}
+	d.closeHandlerOnce = once
 	d.onCloseHandler = f
 	d.mu.Unlock()
 
 	if d.ReadyState() == DataChannelStateClosed {
 		// If the data channel is already closed, call the handler immediately.
-		go d.closeHandlerOnce.Do(f)
+		go once.Do(f)
 	}
 }
 
 func (d *DataChannel) onClose() {
 	d.mu.RLock()
-	handler := d.onCloseHandler
+	handler, once := d.onCloseHandler, d.closeHandlerOnce
 	d.mu.RUnlock()
 
 	if handler != nil {
-		go d.closeHandlerOnce.Do(handler)
+		go once.Do(handler)
 	}
 }
 
